@@ -59,6 +59,17 @@ func (c *Decoder) nextFrame() *Frame {
 	upper := int((*buf)[0])
 	size := (upper << 8) | int((*buf)[1])
 
+	// Long value has its actual size in the following 32-bit integer
+	if size == extendedSize && isValueFrame(frameType) {
+		if _, err := io.ReadFull(c.r, (*buf)[:4]); err != nil {
+			return &Frame{
+				frameType: UNKNOWN,
+				size:      0,
+			}
+		}
+		size = int((*buf)[0])<<24 | int((*buf)[1])<<16 | int((*buf)[2])<<8 | int((*buf)[3])
+	}
+
 	return &Frame{
 		frameType: frameType,
 		size:      size,
